@@ -20,6 +20,7 @@ import (
 	"runtime"
 	"sort"
 	"sync"
+	"sync/atomic"
 	"time"
 
 	"github.com/codenotary/immudb/embedded/logger"
@@ -81,6 +82,9 @@ type replica struct {
 	st   *store.ImmuStore
 	mu   sync.Mutex // serialises restart/discard with the replicator loop
 	dur  uint64     // durably precommitted up to (as the replicator learnt from ReplicateTx results)
+	// out-of-order deliveries still in flight: while one is, the precommitted id may move under a delivery that is itself rejected,
+	// so "a rejected / duplicated delivery has no effect" cannot be judged from the precommitted id
+	ahead int32
 }
 
 type world struct {
@@ -187,9 +191,10 @@ func (w *world) replicator(r *replica, rng *rand.Rand, stop chan struct{}, wg *s
 				if next > 1 {
 					old := 1 + uint64(rng.Intn(int(next-1)))
 					if dup, err := w.p.ExportTx(old, true, false, txh); err == nil {
+						concurrent := atomic.LoadInt32(&r.ahead) > 0
 						before := r.st.LastPrecommittedTxID()
 						_, derr := r.st.ReplicateTx(ctx, dup, w.c.SkipIntegrity, false)
-						if derr == nil || r.st.LastPrecommittedTxID() != before {
+						if derr == nil || (!concurrent && r.st.LastPrecommittedTxID() != before) {
 							w.res.Violate("replication:duplicate-delivery-has-an-effect", fmt.Sprintf("replica %s: ReplicateTx of already replicated tx %d returned %v and precommitted moved %d -> %d", r.name, old, derr, before, r.st.LastPrecommittedTxID()), nil)
 						}
 						w.res.Count("duplicates", 1)
@@ -200,6 +205,7 @@ func (w *world) replicator(r *replica, rng *rand.Rand, stop chan struct{}, wg *s
 				off := rng.Intn(len(alt))
 				alt[off] ^= byte(1 << uint(rng.Intn(8)))
 				field := fieldAt(export, off)
+				concurrent := atomic.LoadInt32(&r.ahead) > 0
 				before := r.st.LastPrecommittedTxID()
 				var hdr *store.TxHeader
 				var aerr error
@@ -227,7 +233,7 @@ func (w *world) replicator(r *replica, rng *rand.Rand, stop chan struct{}, wg *s
 					}
 				} else {
 					w.tr.Log(r.path, storetrace.Event{"ev": "Rejected", "id": next, "field": field})
-					if r.st.LastPrecommittedTxID() != before {
+					if !concurrent && r.st.LastPrecommittedTxID() != before {
 						w.res.Violate("replication:rejected-export-has-an-effect:"+field, fmt.Sprintf("replica %s: ReplicateTx failed (%v) but precommitted moved %d -> %d", r.name, aerr, before, r.st.LastPrecommittedTxID()), nil)
 					}
 				}
@@ -238,8 +244,10 @@ func (w *world) replicator(r *replica, rng *rand.Rand, stop chan struct{}, wg *s
 					if ahead, err := w.p.ExportTx(next+1, true, false, txh); err == nil {
 						var owg sync.WaitGroup
 						owg.Add(1)
+						atomic.AddInt32(&r.ahead, 1)
 						go func() {
 							defer owg.Done()
+							defer atomic.AddInt32(&r.ahead, -1)
 							octx, cancel := context.WithTimeout(ctx, 3*time.Second)
 							defer cancel()
 							if h, err := r.st.ReplicateTx(octx, ahead, w.c.SkipIntegrity, false); err == nil {
